@@ -677,6 +677,13 @@ def main():
                 files['d/meson.build'] = body
             for combo in ((), ('--layout=flat',)):
                 jobs.append(('placed', '%s with build_subdir @%s %s' % (kname, place, ' '.join(combo)), files, None, combo, bs_files_for(files)))
+    # a source kind with a compile rule of its own: LLVM IR (needs clang as the C compiler: chosen through a machine file)
+    if shutil.which('clang'):
+        files = {'meson.build': "project('ir', 'c')\nexecutable('ir', 'main.c', 'f.ll')\nstatic_library('irlib', 'f.ll', 'lib.c')\n",
+                 'main.c': 'int main(void) { return 0; }\n', 'lib.c': 'int libf(void) { return 3; }\n', 'f.ll': 'define i32 @f() {\n  ret i32 0\n}\n',
+                 'clang.ini': "[binaries]\nc = 'clang'\n"}
+        for combo in (('--native-file', 'src/clang.ini'), ('--native-file', 'src/clang.ini', '--layout=flat')):
+            jobs.append(('placed', 'LLVM IR sources ' + ' '.join(combo[2:]), files, None, combo, bs_files_for(files)))
     rich = dict(RICH)
     jobs.append(('rich', 'rich', rich, None, (), bs_files_for(RICH)))
     jobs.append(('rich', 'rich-flat', rich, None, ('--layout=flat',), bs_files_for(RICH)))
